@@ -19,6 +19,7 @@ import (
 	lspp "github.com/a-h/templ/lsp/protocol"
 	parser "github.com/a-h/templ/parser/v2"
 	"github.com/a-h/templ/zzverif/kernel"
+	"github.com/a-h/templ/zzverif/shim/simhook"
 	"github.com/a-h/templ/zzverif/shim/simsync"
 	"github.com/a-h/templ/zzverif/simnet"
 )
@@ -276,6 +277,18 @@ func run(rc *kernel.RunCtx, k *kernel.Kernel) map[string]any {
 		}
 	})
 	defer simsync.SetAfterUnlock(nil)
+	// a goroutine that has just closed a channel (AsyncHandler opening the gate of the next
+	// handler, a conn announcing it is done) is held there: the goroutine it woke runs alone
+	// until it blocks, then the scheduler decides when this one continues
+	nclose := 0
+	simhook.SetYield(func(site string) {
+		if !k.Quiescing.Load() {
+			return
+		}
+		nclose++
+		k.Park(fmt.Sprintf("after-close#%d", nclose), "yield", site, nil)
+	})
+	defer simhook.SetYield(nil)
 	// the editor has one or two documents d.open; d is the one the current action is about
 	docs := []*docState{{uri: "file:///w/a.templ", goURI: "file:///w/a_templ.go"}}
 	if t.Bool("two-documents") {
